@@ -789,6 +789,9 @@ func VpHLevels() {
 			runMode = 0
 		} else {
 			n[1], n[2] = vpChoose("n1", maxT+1), vpChoose("n2", maxT+1)
+			if runMode == 1 && n[1] > 1 && n[2] > 1 {
+				vpAssume(false) // quick tier: at most one of L1, L2 holds more than one table
+			}
 		}
 	case 1:
 		n[0], n[1], n[2] = 0, 1+vpChoose("n1", maxT), vpChoose("n2", maxT+1)
@@ -798,16 +801,15 @@ func VpHLevels() {
 		n[0], n[1], n[2] = 4+vpChoose("extraL0", 2), vpChoose("n1", 2), vpChoose("n2", 2)
 		if n[0] == 5 {
 			special = vpChoose("special", 5)
-			if runMode == 1 && special != 0 && special != 2 && special != 4 {
-				vpAssume(false) // quick tier: the skipped table is the oldest, the middle or the newest
-			}
 			reason = vpChoose("reason", 3) // 0 big, 1 young, 2 input of a running L0->Lbase compaction
 			if reason == 2 && special != 0 {
 				vpAssume(false) // L0->Lbase takes a prefix of the level
 			}
 		}
-		if reason != 2 {
-			adjusted = 0.5 // score >= 1, adjusted score < 1: only L0->L0 is allowed
+		if reason != 2 || runMode == 1 {
+			// score >= 1, adjusted score < 1: only L0->L0 is allowed. With a running L0->Lbase
+			// compaction the thorough tier uses 1.5: L0->Lbase is tried first and refused.
+			adjusted = 0.5
 		}
 	}
 	l2size := int64(10)
